@@ -128,14 +128,20 @@ func doComp(e *c01.Emitter, codes []string, fault string, class string) {
 	}
 	// the ready bit only together with a nil error, and only after the acknowledgement
 	if res.Outcome == "done" {
-		acked := false
+		acked, withID := false, false
 		for _, c := range codes {
 			if c == "K" {
 				acked = true
 			}
+			if c == "S1" {
+				withID = true
+			}
 		}
 		if !acked || res.State&c01.Ready == 0 {
 			e.R.Fail("fail-closed", "component:ready-without-ack", lines, "the component session was established without a handshake acknowledgement")
+		}
+		if !withID {
+			e.R.Fail("fail-closed", "component:ready-without-stream-id", lines, "the component session was established although the peer's stream header carried no stream id (the handshake digest is computed over it)")
 		}
 	}
 }
